@@ -9,6 +9,7 @@ import (
 	"github.com/invopop/gobl/cbc"
 	"github.com/invopop/gobl/currency"
 	"github.com/invopop/gobl/internal"
+	"github.com/invopop/gobl/num"
 	"github.com/invopop/gobl/org"
 	"github.com/invopop/gobl/schema"
 	"github.com/invopop/gobl/tax"
@@ -217,23 +218,34 @@ func (inv *Invoice) Invert() error {
 		row.Quantity = row.Quantity.Invert()
 		for _, d := range row.Discounts {
 			d.Amount = d.Amount.Invert()
+			d.Base = invertAmount(d.Base)
 		}
 		for _, c := range row.Charges {
 			c.Amount = c.Amount.Invert()
+			c.Base = invertAmount(c.Base)
+			c.Quantity = invertAmount(c.Quantity)
 		}
 	}
 	for _, row := range inv.Charges {
 		row.Amount = row.Amount.Invert()
+		row.Base = invertAmount(row.Base)
 	}
 	for _, row := range inv.Discounts {
 		row.Amount = row.Amount.Invert()
+		row.Base = invertAmount(row.Base)
 	}
 	if inv.Payment != nil {
 		for _, row := range inv.Payment.Advances {
 			row.Amount = row.Amount.Invert()
 		}
 	}
+	// Any rounding adjustment is the only part of the totals that
+	// cannot be recalculated, so keep it with the opposite sign.
+	rounding := invertAmount(inv.Totals.Rounding)
 	inv.Totals = nil
+	if rounding != nil {
+		inv.Totals = &Totals{Rounding: rounding}
+	}
 
 	if err := inv.Calculate(); err != nil {
 		return err
@@ -246,6 +258,14 @@ func (inv *Invoice) Invert() error {
 	}
 
 	return nil
+}
+
+func invertAmount(a *num.Amount) *num.Amount {
+	if a == nil {
+		return nil
+	}
+	na := a.Invert()
+	return &na
 }
 
 // Empty is a convenience method that will empty all the lines and
